@@ -1870,6 +1870,16 @@ func (bc *Blockchain) AddBlock(block *block.Block) error {
 			}
 			seen[tx.Hash()] = struct{}{}
 		}
+		// The scratch pool used below doesn't fail on a transaction that
+		// conflicts with a pooled one, it replaces it if the fee allows that.
+		for _, tx := range block.Transactions {
+			for _, attr := range tx.GetAttributes(transaction.ConflictsT) {
+				h := attr.Value.(*transaction.Conflicts).Hash
+				if _, ok := seen[h]; ok {
+					return fmt.Errorf("invalid block: transaction %s conflicts with transaction %s of the same block", tx.Hash().StringLE(), h.StringLE())
+				}
+			}
+		}
 		mp = mempool.New(len(block.Transactions), false, nil)
 		for _, tx := range block.Transactions {
 			var err error
